@@ -14,6 +14,14 @@ def tables_for_tu(tu, entries):
 def compare(res, out, entries, rule, value_families_only=False):
     """Compare C tables (out[fam][entry]) and Python tables with the spec."""
     wiring = setops.py_value_wiring()
+    for what in setops.WIRING_FAULTS:
+        res.findings.add(dict(
+            rule="PY-MERGE-WIRING", function="_create_classes", file="src/BTrees/_module_builder.py", line=1,
+            construct=what,
+            detail="the weighted set operations of a family combine *values*: "
+                   "MERGE / MERGE_WEIGHT / MERGE_DEFAULT must come from the "
+                   "value datatype; with the key datatype the object-keyed "
+                   "families (OI, OL, OU, OQ) lose the weighting", path=[]))
     groups = {}
     nobl = 0
 
